@@ -98,7 +98,7 @@ def watch_run(files, cfg, ops, prefix, during_build=False, mode="rebuild"):
         h = sim.handler
         if h is None or h.watcher is None:
             return []
-        busy = h.watcher.busy_watching.is_set()
+        busy = h.watcher.busy_watching.is_set() and not any(not g.fut.done() for g in sim.gates)
         nwatch = sum(1 for r in sim.reports if r[0] == "PHASE" and r[1] == "watch")
         if state["stage"] == "ops":
             allowed = (busy and sim.inotify_idle()) or (during_build and len(sim.running) > 0)
@@ -245,7 +245,19 @@ def run_job(spec):
                 acc.sample({"project": name, "operations": ops,
                             "watcher": [r[:2] for r in obs.reports if r[0] in ("UPDATED", "DELETED")][-6:]})
 
-        explore(run, spec["bound"], visit, limit=400)
+        # Deviations are explored up to the fork only: after it both variants follow the default
+        # schedule, so that scheduling effects of the rebuild itself (C02's subject) cancel out.
+        root = run([])
+        visit([], root)
+        if spec["bound"] >= 1 and root.fork is not None:
+            count = 0
+            for i in range(min(root.fork, len(root.points))):
+                for alt in range(1, root.points[i][0]):
+                    count += 1
+                    if count > 300:
+                        break
+                    prefix = [c for _, c in root.points[:i]] + [alt]
+                    visit(prefix, run(prefix))
     return acc
 
 
